@@ -561,60 +561,65 @@ func combinatorTables(c *core.Ctx, r *core.Report) {
 	for _, name := range []string{"And", "Or"} {
 		ctor := c.Func("container", name)
 		cons := "combinator:container." + name
-		if ctor == nil || len(ctor.AnonFuncs) != 1 {
-			r.Undecided("C06.R4", cons, "", "combinator (with exactly one closure) not found")
+		if ctor == nil || len(ctor.Params) != 1 {
+			r.Undecided("C06.R4", cons, "", "combinator constructor (taking the options) not found")
 			continue
 		}
-		lit := ctor.AnonFuncs[0]
+		// constructor-driven: interpret the constructor on the option list, then whatever function value it returns
+		// (a literal, a method value, ...) on a component
 		bad := ""
 		runs := 0
-		for n := 0; n <= 3; n++ {
-			for mask := 0; mask < 1<<n; mask++ {
-				build := func() (absint.Oracle, []absint.Value, []absint.Value) {
-					t := newTbl(c)
-					opts := &absint.List{IsNil: n == 0}
-					for i := 0; i < n; i++ {
-						o := absint.NewTok(fmt.Sprintf("opt%d", i), "option")
-						o.Attr["v"] = absint.Bool(mask>>i&1 == 1)
-						opts.Elems = append(opts.Elems, o)
-					}
-					t.dynamic = func(ip *absint.Interp, fn absint.Value, a []absint.Value) (absint.Value, bool) {
-						if o, ok := fn.(*absint.Tok); ok && o.Class == "option" {
-							return o.Attr["v"], true
-						}
-						return nil, false
-					}
-					var bind []absint.Value
-					for range lit.FreeVars {
-						bind = append(bind, &absint.Cell{V: opts})
-					}
-					if len(lit.FreeVars) == 1 {
-						if _, isPtr := lit.FreeVars[0].Type().Underlying().(*types.Pointer); !isPtr {
-							bind = []absint.Value{opts}
-						}
-					}
-					return t, []absint.Value{absint.NewTok("m", "meta")}, bind
+		var lit *ssa.Function
+		for n := 0; n <= 3 && bad == ""; n++ {
+			for mask := 0; mask < 1<<n && bad == ""; mask++ {
+				t := newTbl(c)
+				opts := &absint.List{IsNil: n == 0}
+				for i := 0; i < n; i++ {
+					o := absint.NewTok(fmt.Sprintf("opt%d", i), "option")
+					o.Attr["v"] = absint.Bool(mask>>i&1 == 1)
+					opts.Elems = append(opts.Elems, o)
 				}
-				check := func(ip *absint.Interp, out absint.Outcome) {
-					want := name == "And"
-					for i := 0; i < n; i++ {
-						v := mask>>i&1 == 1
-						if name == "And" {
-							want = want && v
-						} else {
-							want = want || v
-						}
+				t.dynamic = func(ip *absint.Interp, fn absint.Value, a []absint.Value) (absint.Value, bool) {
+					if o, ok := fn.(*absint.Tok); ok && o.Class == "option" {
+						return o.Attr["v"], true
 					}
-					if out.Panic != nil || len(out.Ret) != 1 || out.Ret[0] != absint.Value(absint.Bool(want)) {
-						bad = fmt.Sprintf("n=%d truth=%0*b => %s, want %v", n, n, mask, showOutcome(out), want)
+					return nil, false
+				}
+				ip := absint.New(t)
+				ip.IsLog, ip.InScope = core.IsLogCall, c.InScope
+				out := ip.Run(ctor, []absint.Value{opts}, nil)
+				runs++
+				if out.Undecided == nil && out.Panic == nil && len(out.Ret) == 1 {
+					switch f := out.Ret[0].(type) {
+					case *absint.Closure:
+						lit = resolveWrapper(f.Fn)
+						out = ip.Run(f.Fn, []absint.Value{absint.NewTok("m", "meta")}, f.Bind)
+					case *ssa.Function:
+						lit = f
+						out = ip.Run(f, []absint.Value{absint.NewTok("m", "meta")}, nil)
+					default:
+						out = absint.Outcome{Undecided: &absint.Undecided{Msg: "the constructor did not return a function"}}
 					}
 				}
-				k, u := runTable(c, lit, build, check)
-				runs += k
-				if u != "" {
-					bad = "left the model: " + u
+				want := name == "And"
+				for i := 0; i < n; i++ {
+					v := mask>>i&1 == 1
+					if name == "And" {
+						want = want && v
+					} else {
+						want = want || v
+					}
+				}
+				switch {
+				case out.Undecided != nil:
+					bad = "left the model: " + out.Undecided.Msg
+				case out.Panic != nil || len(out.Ret) != 1 || out.Ret[0] != absint.Value(absint.Bool(want)):
+					bad = fmt.Sprintf("n=%d truth=%0*b => %s, want %v", n, n, mask, showOutcome(out), want)
 				}
 			}
+		}
+		if lit == nil {
+			lit = ctor
 		}
 		smallModelCheck(c, r, "C06.R4", cons, lit, 3)
 		r.Check(bad == "", "C06.R4", cons, c.FnPos(ctor), fmt.Sprintf("%s is the %s of its options on all %d truth assignments of up to 3 options %s", name, map[string]string{"And": "conjunction", "Or": "disjunction"}[name], runs, bad))
